@@ -12,6 +12,7 @@ import math
 from mc import alpha
 from mc.env import guard
 from mc.state import track_extras
+from mc import pasts
 from mc.explore import bfs
 from tracklib.core.track import Track
 from tracklib.core.obs import Obs
@@ -36,6 +37,7 @@ SIZES = [1, 2, 3]
 DEPTH = {"quick": 3, "thorough": 4}
 
 OBLIGATIONS = {
+    "track_with_a_past": "the feature operations were applied to a track that had been copied, extracted, sliced, sorted, resampled, rebuilt from observations or concatenated first",
     "expression_through_brackets": "an expression (with and without '=') was evaluated through track[\"...\"]",
     "delete_non_last_then_read": "a history deletes a feature that is not the last column and another one is read afterwards",
     "delete_then_recreate": "a history deletes a name and creates it again",
@@ -579,6 +581,57 @@ def check_alias(variant, n, name, kind, form, ctx):
     ctx.outcome(("alias", name, n))
 
 
+# ---- tracks with a past: the same short history of feature operations on a track that went through another part of the
+# library first (mc/pasts.py).  Expected values are the ones written here, so the past itself needs no model.
+def check_past(variant, n, past, ctx):
+    case = {"kind": "past", "variant": variant, "N": n, "past": past}
+    ctx.case(n >= 2)
+    ctx.transition(6)
+    st, t = guard(pasts.make, make_root(n, variant), past)
+    if st != "ok":
+        ctx.undef()                       # the past itself cannot be built for this size: nothing to judge here
+        return
+    key = "track-with-a-past/%s/" % past
+    size = t.size()
+    if size == 0:
+        ctx.undef()                       # (a one-fix track resampled in time is empty) tracks of size >= 1 only
+        return
+    L1 = [alpha.const(variant, 10.0 + i) for i in range(size)]
+    L2 = [alpha.const(variant, -3.0 + 2 * i) for i in range(size)]
+    written = {}
+    for nm in t.getListAnalyticalFeatures():
+        written[nm] = list(t.getAnalyticalFeature(nm))
+    xyz = (list(t.getX()), list(t.getY()), list(t.getZ()), list(t.getT()))
+    steps = [("create", lambda: t.createAnalyticalFeature("n", list(L1)), {"n": L1}, None),
+             ("bracket-assign", lambda: t.__setitem__("m", list(L2)), {"m": L2}, None),
+             ("update", lambda: t.updateAnalyticalFeature("n", 5.0), {"n": [5.0] * size}, None),
+             ("expr=", lambda: t.operate("c=n+m"), {"c": [5.0 + v for v in L2]}, None),
+             ("remove", lambda: t.removeAnalyticalFeature("n"), {}, "n")]
+    for name, fn, writes, removed in steps:
+        st, r = guard(fn)
+        if st != "ok":
+            ctx.violation(key + ("does-not-return" if st == "hang" else "raises"), dict(case, step=name), r)
+            return
+        written.update(writes)
+        if removed:
+            written.pop(removed, None)
+        listed = list(t.getListAnalyticalFeatures())
+        if sorted(listed) != sorted(written):
+            ctx.violation(key + "listed-names-differ-from-names-written", dict(case, step=name), {"listed": listed, "written": sorted(written)})
+            return
+        for nm, want in written.items():
+            st, got = guard(lambda: list(t.getAnalyticalFeature(nm)))
+            if st != "ok" or not _eq(want, got):
+                ctx.violation(key + "values-read-differ-from-values-written", dict(case, step=name),
+                              {"feature": nm, "written": want, "read": got, "after": name})
+                return
+        if (list(t.getX()), list(t.getY()), list(t.getZ()), list(t.getT())) != xyz:
+            ctx.violation(key + "coordinate-or-timestamp-changed", dict(case, step=name), None)
+            return
+    ctx.oblige("track_with_a_past")
+    ctx.outcome(("past", past, size))
+
+
 def plan(tier, variant):
     """One shard per distinct depth-1 state (prefix of length 1) of each size; plus the root expansion itself."""
     shards = []
@@ -599,10 +652,18 @@ def plan(tier, variant):
             shards.append({"N": N, "variant": variant, "prefix": [list(ev)], "depth": DEPTH[tier] - 1})
     for kind in ("u", "b", "s"):
         shards.append({"kind": "alias", "N": 0, "variant": variant, "opkind": kind})
+    shards.append({"kind": "pasts", "N": 0, "variant": variant})
     return shards
 
 
 def run_shard(shard, ctx):
+    if shard.get("kind") == "pasts":
+        for n in (1, 2, 3, 5):
+            for past in pasts.PASTS:
+                check_past(shard["variant"], n, past, ctx)
+        ctx.sample({"tracks_with_a_past": pasts.PASTS, "sizes": [1, 2, 3, 5],
+                    "history": "create n, t['m'] = list, update n, c=n+m, remove n - every listed feature read back after each step"})
+        return
     if shard.get("kind") == "alias":
         v = shard["variant"]
         todo = [(nm, k) for nm, k in alias_ops() if k == shard["opkind"]]
@@ -626,6 +687,8 @@ def run_shard(shard, ctx):
 
 
 def replay(case, ctx):
+    if case.get("kind") == "past":
+        return check_past(case["variant"], case["N"], case["past"], ctx)
     if case.get("kind") == "alias":
         return check_alias(case["variant"], case["N"], case["op"], case["opkind"], case["form"], ctx)
     N, variant = case["N"], case["variant"]
